@@ -1,11 +1,16 @@
 package stateful
 
 import (
+	"errors"
 	"regexp"
 	"time"
 
 	"github.com/influxdata/kapacitor/tick/ast"
 )
+
+// errIntegerDivideByZero is returned instead of letting the Go runtime panic: the typed
+// Eval* entry points used by the nodes do not recover.
+var errIntegerDivideByZero = errors.New("runtime error: integer divide by zero")
 
 type operationKey struct {
 	operator  ast.TokenType
@@ -1034,6 +1039,9 @@ var evaluationFuncs = map[operationKey]*evaluationFnInfo{
 				return emptyResultContainer, &ErrSide{error: err, IsRight: true}
 			}
 
+			if right == 0 {
+				return emptyResultContainer, &ErrSide{error: errIntegerDivideByZero, IsRight: true}
+			}
 			return resultContainer{Int64Value: left / right, IsInt64Value: true}, nil
 		},
 		returnType: ast.TInt,
@@ -1053,6 +1061,9 @@ var evaluationFuncs = map[operationKey]*evaluationFnInfo{
 				return emptyResultContainer, &ErrSide{error: err, IsRight: true}
 			}
 
+			if right == 0 {
+				return emptyResultContainer, &ErrSide{error: errIntegerDivideByZero, IsRight: true}
+			}
 			return resultContainer{Int64Value: left % right, IsInt64Value: true}, nil
 		},
 		returnType: ast.TInt,
@@ -1186,6 +1197,9 @@ var evaluationFuncs = map[operationKey]*evaluationFnInfo{
 				return emptyResultContainer, &ErrSide{error: err, IsRight: true}
 			}
 
+			if right == 0 {
+				return emptyResultContainer, &ErrSide{error: errIntegerDivideByZero, IsRight: true}
+			}
 			return resultContainer{DurationValue: left / time.Duration(right), IsDurationValue: true}, nil
 		},
 		returnType: ast.TDuration,
@@ -1222,6 +1236,9 @@ var evaluationFuncs = map[operationKey]*evaluationFnInfo{
 				return emptyResultContainer, &ErrSide{error: err, IsRight: true}
 			}
 
+			if right == 0 {
+				return emptyResultContainer, &ErrSide{error: errIntegerDivideByZero, IsRight: true}
+			}
 			return resultContainer{Int64Value: int64(left / right), IsInt64Value: true}, nil
 		},
 		returnType: ast.TInt,
